@@ -18,4 +18,10 @@ package api
 //@ func api.NewRouter
 //@   assumes roMode == readOnly && !roInstalled
 //@   ensures readOnly ==> roInstalled
+// start-up wiring: the router is built with the read-only flag of the configuration api.Module was given (the very
+// variable the provider closure captures, not a configuration rebuilt or injected on the way)
+//@   requires in api.Module$1: readOnly == captured(cfg).ReadOnly // C19
+//@   property C19
+// the provider of the router (first closure of api.Module)
+//@ func api.Module$1
 //@   property C19
